@@ -19,6 +19,9 @@ import sys
 VERIF = os.path.dirname(os.path.dirname(os.path.abspath(__file__)))
 if VERIF not in sys.path:
     sys.path.insert(0, VERIF)
+REPO = os.environ.get("RXVC_REPO", "/repo")  # the tree under test (the checks run on /repo; scratch copies are used by my own side runs only)
+if REPO not in sys.path:
+    sys.path.insert(0, REPO)
 
 BEHAVIOURS = ["plain", "unsub_self_on_next", "unsub_other_on_next", "sub_other_on_next", "raise_on_next"]
 # element values: 1 and True compare equal and are different values (a subject that compares elements instead of keeping them shows here); None is falsy
